@@ -79,9 +79,11 @@ func (m *monitor) precedenceBlock(dead string) *block {
 		u("rewrite", "rewrite /open-tpl /secret/t.html"),
 		u("rewrite", "rewrite /open-md /secret/doc.md"),
 		u("rewrite", "rewrite /open-dir /secret/b/"),
+		u("rewrite", "rewrite /open-intern /intern/y.txt"),
 		u("ext", "ext .html"),
 		u("gzip", "gzip"),
 		u("header", "header / X-Mark m1"),
+		u("header", "header / Cache-Control no-store"),
 		u("errors", "errors %LOG%/errors.log {\n\t\t404 errs/404.html\n\t\t* errs/generic.html\n\t}"),
 		u("basicauth", "basicauth /secret "+cred),
 		u("basicauth", "basicauth /extp/page.html "+cred),
@@ -239,6 +241,8 @@ func (m *monitor) facts() []fact {
 	} {
 		fs = append(fs, fact{class: "internal-before-content/" + x.h, what: x.target + " is internal: " + x.h + " must not answer", q: get("internal", x.target), check: undisclosed(tokIntern)})
 	}
+	// request rewriting comes before internal: the path produced by a rewrite is the path internal judges
+	fs = append(fs, fact{class: "rewrite-before-internal", what: "/open-intern is rewritten into the internal location /intern/y.txt: no content handler may answer it", q: get("internal", "/open-intern"), check: undisclosed(tokIntern)})
 	// internal also comes before browse as far as the parent's listing goes: what is internal is not listed
 	fs = append(fs, fact{class: "internal-before-content/browse-listing", what: "/dir/hid-... is internal: the listing of /dir/ must not name it", q: get("internal", "/dir/"), check: undisclosed("hid-" + tokIntern)})
 	// wrappers around every content handler
@@ -286,6 +290,19 @@ func (m *monitor) facts() []fact {
 				return ""
 			}})
 	}
+	// response headers are around the error pages as well: every field the header directive sets
+	fs = append(fs, fact{class: "header-around/errors", what: "response header rules (X-Mark, Cache-Control) apply to the configured error page of /nofile.html", q: get("err-hdr", "/nofile.html"),
+		check: func(o obs) string {
+			if !has(o, tokErr404) {
+				return fmt.Sprintf("configured error page not served (status %d)", o.Status)
+			}
+			for _, h := range []string{markHdr, "Cache-Control: no-store"} {
+				if !hasHdr(o, h) {
+					return "header " + h + " missing from the error page"
+				}
+			}
+			return ""
+		}})
 	fs = append(fs, fact{class: "gzip-around/errors", what: "gzip applies to the error page of /nofile.html", q: get("err-gz", "/nofile.html", gz),
 		check: func(o obs) string {
 			if !has(o, tokErr404) {
